@@ -44,6 +44,24 @@ if TYPE_CHECKING:
     from deep.api.tracepoint.trigger import LocationAction
 
 
+class FailedExpression(Exception):
+    """
+    What TriggerContext.evaluate_expression gives for an expression that raised.
+
+    An expression can be worth an exception object (a local holding the last error): that is a value. This says
+    that there is no value, and holds the exception the expression raised.
+    """
+
+    def __init__(self, error: BaseException):
+        """
+        Create the result of a failed expression.
+
+        :param error: the exception the expression raised
+        """
+        super().__init__()
+        self.error = error
+
+
 class ActionContext(abc.ABC):
     """A context for the processing of an action."""
 
@@ -96,7 +114,25 @@ class ActionContext(abc.ABC):
             return WatchResult(source, watch, variable_id), var_processor.var_lookup, log_str
         except BaseException as e:
             logging.exception("Error evaluating watch %s", watch)
-            return WatchResult(source, watch, None, str(e)), {}, str(e)
+            message = self.__error_text(e)
+            return WatchResult(source, watch, None, message), {}, message
+
+    @staticmethod
+    def __error_text(error: BaseException) -> str:
+        """
+        Get the text that reports a failed expression.
+
+        The exception is the application's: its __str__ can fail too, or give nothing. Whatever it does, the result
+        is a text that is not empty (an empty error is no error for the readers of the result).
+
+        :param error: the exception the expression raised
+        :return: the text of the exception; or the name of its type
+        """
+        try:
+            message = str(error)
+        except BaseException:
+            message = None
+        return message or type(error).__name__
 
     def process_capture_variable(self, name: str, variable: any, later: bool = False) \
             -> Tuple[WatchResult, Dict[str, Variable], str]:
